@@ -851,18 +851,11 @@ type Event struct {
 	Conn *Conn
 	Sub  *Subscription
 	Seq  uint64 // for dispatch: route sequence number of the message (age)
+	key  string
 }
 
-// Key is a stable textual identity of the event.
-func (e Event) Key() string {
-	switch e.Kind {
-	case EvRoute:
-		o := e.Conn.uplink[0]
-		return fmt.Sprintf("route %s %s %s", e.Conn.Name, o.Kind, o.Subject)
-	default:
-		return fmt.Sprintf("dispatch %s#%d %s", e.Sub.conn.Name, e.Sub.idx, e.Sub.inbox[0].Subject)
-	}
-}
+// Key is a stable textual identity of the event (computed under the world lock when the event was listed).
+func (e Event) Key() string { return e.key }
 
 // Enabled lists the enabled bus events: dispatches first (oldest message
 // first), then routes in connection order. Call only at quiescence.
@@ -873,7 +866,8 @@ func (w *World) Enabled() []Event {
 	for _, c := range w.conns {
 		for _, s := range c.subs {
 			if !s.closed && !s.busy && len(s.inbox) > 0 {
-				evs = append(evs, Event{Kind: EvDispatch, Conn: c, Sub: s, Seq: s.inbox[0].Seq})
+				evs = append(evs, Event{Kind: EvDispatch, Conn: c, Sub: s, Seq: s.inbox[0].Seq,
+					key: fmt.Sprintf("dispatch %s#%d %s", c.Name, s.idx, s.inbox[0].Subject)})
 			}
 		}
 		if len(c.reqs) > 0 {
@@ -885,7 +879,8 @@ func (w *World) Enabled() []Event {
 			for _, k := range keys {
 				s := c.reqs[k]
 				if !s.closed && len(s.inbox) > 0 {
-					evs = append(evs, Event{Kind: EvDispatch, Conn: c, Sub: s, Seq: s.inbox[0].Seq})
+					evs = append(evs, Event{Kind: EvDispatch, Conn: c, Sub: s, Seq: s.inbox[0].Seq,
+						key: fmt.Sprintf("dispatch %s#%d %s", c.Name, s.idx, s.inbox[0].Subject)})
 				}
 			}
 		}
@@ -893,7 +888,8 @@ func (w *World) Enabled() []Event {
 	sort.SliceStable(evs, func(i, j int) bool { return evs[i].Seq < evs[j].Seq })
 	for _, c := range w.conns {
 		if len(c.uplink) > 0 && (c.state == stConnected || c.state == stClosed) {
-			evs = append(evs, Event{Kind: EvRoute, Conn: c})
+			o := c.uplink[0]
+			evs = append(evs, Event{Kind: EvRoute, Conn: c, key: fmt.Sprintf("route %s %s %s", c.Name, o.Kind, o.Subject)})
 		}
 	}
 	return evs
